@@ -95,8 +95,12 @@ func networkEntries() []*Entry {
 	hv(zoneHeaderWO(types.Progpow, false))
 	hv(domBlockWO(common.REGION_CTX))
 	hv(domBlockWO(common.PRIME_CTX))
+	sv(deepShareWO(types.Scrypt))
+	sv(deepShareWO(types.SHA_BTC))
 	sv(shareWO(types.Scrypt, true))
 	sv(shareWO(types.Kawpow, true))
+	sv(deepShareWO(types.SHA_BCH))
+	sv(deepShareWO(types.Kawpow))
 	sv(shareWO(types.SHA_BTC, true))
 	sv(shareWO(types.SHA_BCH, true))
 	sv(shareWO(types.Progpow, false))
@@ -193,7 +197,7 @@ func networkEntries() []*Entry {
 	// 3. gossip validators: the PRODUCTION PubsubManager.ValidatorFunc (through the verif hook
 	// p2p/node/pubsubManager/verif_c15_export.go: stub consensus backend, real SanityCheck* methods),
 	// for a zone, a region and a prime node.
-	current := shareWO(types.Kawpow, true)
+	current := currentHeaderWO()
 	nodes := []struct {
 		name string
 		g    *pubsubManager.VerifC15Gossip
